@@ -402,7 +402,7 @@ func init() {
 		Required: []string{"docs_accepted", "roundtrips", "accepted_buf.yaml", "accepted_buf.lock", "accepted_buf.gen.yaml", "accepted_buf.work.yaml",
 			"observed_lint_disabled_modules", "observed_single_root_module_with_includes", "observed_multi_root_modules", "observed_same_dir_module_groups",
 			"migrations", "mig_modules_compared", "mig_lint_annotations", "mig_breaking_annotations", "mig_files_compared",
-			"mig_layouts", "mig_edits", "lint_rules_seen", "breaking_rules_seen"},
+			"mig_layouts", "mig_edits", "lint_rules_seen", "breaking_rules_seen", "mig_merge_plans", "mig_merged_keys_observed"},
 		WatchdogSec: map[string]int{"quick": 600, "thorough": 3 * 3600},
 	})
 }
